@@ -666,7 +666,9 @@ func (g *G) genArg(svcs []string, openTags []string, label string) cfg.Val {
 		g.L.Add("arg:tagged")
 		sep := " "
 		if g.chance(15, label+"-ws") {
-			sep = rapid.SampledFrom([]string{"  ", "\t", " \t "}).Draw(g.T, label+"-sep")
+			// the keyword is followed by white space in the sense of \s: blanks, tabs, line breaks, form feeds
+			sep = rapid.SampledFrom([]string{"  ", "\t", " \t ", "\n", "\r\n", "\n    ", "\f", " \n", "\t\n"}).Draw(g.T, label+"-sep")
+			g.L.Add("arg:keyword-followed-by-unusual-whitespace")
 		}
 		return cfg.Str("!tagged" + sep + openTags[g.draw(len(openTags), label+"-tag")])
 	case k == 2:
@@ -678,7 +680,12 @@ func (g *G) genArg(svcs []string, openTags []string, label string) cfg.Val {
 		if (e == "Obj{}" || e == "Val{}" || e == "GlobalVal") && g.flip(label+"-amp") {
 			ptr = "&"
 		}
-		return cfg.Str("!value " + ptr + join(g.spell(p, strings.Contains(e, "."), label+"-vimp"), e))
+		vsep := " "
+		if g.chance(15, label+"-vws") {
+			vsep = rapid.SampledFrom([]string{"  ", "\t", "\n", "\r\n", "\n  ", "\f"}).Draw(g.T, label+"-vsep")
+			g.L.Add("arg:keyword-followed-by-unusual-whitespace")
+		}
+		return cfg.Str("!value" + vsep + ptr + join(g.spell(p, strings.Contains(e, "."), label+"-vimp"), e))
 	case k == 3:
 		g.L.Add("arg:gontainer")
 		return cfg.Str("$gontainer")
